@@ -106,7 +106,15 @@ impl NetworkAddress {
         let enc = FourWordAdaptiveEncoder::new()?;
         let normalized = words.replace('-', " ");
         let decoded = enc.decode(&normalized)?; // returns a normalized address string
-        let socket_addr: SocketAddr = decoded.parse()?; // must include port
+        let socket_addr: SocketAddr = match decoded.parse() {
+            Ok(addr) => addr,
+            // four-word-networking renders port 65535 (its "no port" marker) as a bare IP.
+            // For IPv4 the four words carry exactly 48 bits, so a bare IPv4 address means port 65535.
+            Err(e) => match decoded.parse::<Ipv4Addr>() {
+                Ok(ip) => SocketAddr::new(IpAddr::V4(ip), 65535),
+                Err(_) => return Err(e.into()),
+            },
+        };
         Ok(Self::new(socket_addr))
     }
 
@@ -152,6 +160,12 @@ impl FromStr for NetworkAddress {
     type Err = anyhow::Error;
 
     fn from_str(s: &str) -> Result<Self> {
+        // Accept our own `Display` rendering "ip:port (four-words)": the suffix is informational.
+        let s = match s.split_once(" (") {
+            Some((head, tail)) if tail.ends_with(')') => head,
+            _ => s,
+        };
+
         // First try to parse as a socket address
         if let Ok(socket_addr) = SocketAddr::from_str(s) {
             return Ok(Self::new(socket_addr));
